@@ -94,3 +94,35 @@ def sis_scenarios(seed, n_random, sizes=(2, 3, 4), unsorted_frac=0.0):
         out.append({"n": n, "adj": adj, "init": init, "k": K, "dur": dur, "delay": delay,
                     "tmin": tmin, "tmax": tmax, "sorted": srt})
     return out
+
+
+def sir_generic_scenarios(seed, n_random, sizes=(3, 4, 5)):
+    """event-driven SIR scenarios with generic (pairwise distinct w.h.p.) finite durations and delays:
+    used to drive fast_SIR's unweighted path (binomial + sample + truncated exponentials)"""
+    rng = pyrandom.Random(seed + 4242)
+    out = []
+    for _ in range(n_random):
+        n = rng.choice(sizes)
+        p = rng.choice([0.5, 0.8, 1.0])
+        adj = [[0] * n for _ in range(n)]
+        for u in range(n):
+            for v in range(u + 1, n):
+                if rng.random() < p:
+                    adj[u][v] = adj[v][u] = 1
+        init = ["S"] * n
+        for u in rng.sample(range(n), rng.choice([1, 1, 2])):
+            init[u] = "I"
+        if rng.random() < 0.3:
+            c = [u for u in range(n) if init[u] == "S"]
+            if c:
+                init[rng.choice(c)] = "R"
+        dur = [rng.randint(50, 1000) for _ in range(n)]
+        delay = [[0 if u == v else (rng.randint(1, 1400)) for v in range(n)] for u in range(n)]
+        for u in range(n):
+            for v in range(n):
+                if delay[u][v] == dur[u]:
+                    delay[u][v] += 1
+        tmin = rng.choice([0, 0, 100])
+        tmax = rng.choice([INF, INF, tmin + 900])
+        out.append({"n": n, "adj": adj, "init": init, "delay": delay, "dur": dur, "tmin": tmin, "tmax": tmax})
+    return out
